@@ -41,12 +41,16 @@ RULE = (
     "says empty (zero signed area, zero-width/height bbox, other fill rule empty, area < 1e-6 E^2, zero-area geometry with "
     "visible stroke, deciding property borne by style); subpaths = >=2 subpaths of which one has no area of its own and "
     "the path paints; doc = something is painted and at least one shape or subpath is unpainted by the own evaluator. "
-    "Distinct = distinct case."
+    "Distinct = distinct case. Known finding ENGINE-TINY-CONTOUR (skia-pathops simplify loses contours of area < 2^-12 "
+    "square user units) is neutralised: a case whose whole painted region / whose every changed point lies inside contours "
+    "that on their own enclose < 2^-11 is counted as excluded unless case['pinned']; documents use frames >= 16 so that "
+    "such contours are below the render oracle's resolution."
 )
 ASSUMPTIONS = [
     "vlib/refsvg geometry (interpreter, flattening, winding; self-tested) and stroke3 (three-valued stroke membership)",
     "a witness closer than 1e-6 x max(|coordinate|, bbox size) to an edge is not claimed as painted (binary32 resolution of the engine is ~1e-7 relative)",
     "zero-length subpaths (dots of round/square caps) and zero-size basic shapes are never claimed to paint; dashes are not used in the shape subcheck",
+    "groups carry inheritable paint through attributes only (picosvg copies an inherited style attribute wholesale and a child's own style attribute replaces it; cascade matter of C05)",
     "fences: use/clip/gradients/nested svg are not generated (property quantifies over shapes and paths x paint); percentages, units, negative stroke-width, opacity outside [0,1], odd point lists",
 ]
 
@@ -193,13 +197,15 @@ class Geo:
                     pts.append(mid - nrm * delta)
         return np.concatenate(pts)
 
-    def area_estimate(self):
-        """nonzero-filled area from the 32x32 lattice (resolution bbox/1024); exact enough to tell 'tiny' from not"""
-        if not len(self.A):
-            return 0.0
-        self.witness("nonzero")
-        x0, y0, x1, y1 = self.A[:, 0].min(), self.A[:, 1].min(), self.A[:, 0].max(), self.A[:, 1].max()
-        return float((self._wind[:1024] != 0).sum()) / 1024.0 * float((x1 - x0) * (y1 - y0))
+    def area_upper_bound(self):
+        """Sum of |areas| of the fan triangles (v0, vi, vi+1) of every ring: the winding number of a point is the sum of
+        the signed fan triangles containing it, so the filled region lies inside their union.  Exact for triangles."""
+        tot = 0.0
+        for pts, _, _ in self.polys:
+            if len(pts) >= 3:
+                a, b = pts[1:-1] - pts[0], pts[2:] - pts[0]
+                tot += 0.5 * float(np.abs(a[:, 0] * b[:, 1] - a[:, 1] * b[:, 0]).sum())
+        return tot
 
     def witness(self, rule):
         """-> (x, y, distance to the nearest edge) of a point robustly inside the fill region, or None."""
@@ -266,8 +272,8 @@ def _tiny_contours_only(subs, rule) -> bool:
 
 
 def _geo_tiny_areal(gs) -> bool:
-    # both the shoelace area and the lattice estimate: a symmetric bow-tie has shoelace area 0 but is not tiny
-    return bool(len(gs.A)) and gs.witness("nonzero") is not None and abs(gs.signed_area()) < TINY_AREA and gs.area_estimate() < TINY_AREA
+    # upper bound of the painted area (a symmetric bow-tie has shoelace area 0 but is not tiny)
+    return bool(len(gs.A)) and gs.witness("nonzero") is not None and gs.area_upper_bound() < TINY_AREA
 
 
 def _is_tiny_areal(sp) -> bool:
